@@ -2,7 +2,9 @@
 //! delivery, per-step recording. Everything is observed through the public API
 //! (plus `load_mls_group` from the repo's own `debug-examples` feature).
 
+pub mod adversary;
 pub mod fp;
+pub mod gdext;
 pub mod scenario;
 
 use std::collections::{BTreeSet, HashMap, HashSet};
